@@ -28,3 +28,36 @@ Theorem C06_globstar_runs_merge : forall cf v before last d,
                 gp_dironly := d; gp_drive := false |}].
 Proof. exact store_merges_globstars. Qed.
 Print Assumptions C06_globstar_runs_merge.
+
+(* ---- the symlink rule of REALPATH globmatch (model RealMatch.v of _fs_match) -------------------------------------------
+   Along one captured `**` run the walk fails exactly at a checked prefix that is a link - checked = every component,
+   except the last one when the run ends where the code's `at_end` says; an acceptance without FOLLOW means some
+   inclusion regex matched with every captured run free of such links and no exclusion regex matched; FOLLOW only adds
+   matches; exclusion patterns never look at links. *)
+From WC Require RealMatch.
+From WC.Proofs Require RealLemmas.
+
+Theorem C06_run_walk_rule : forall islink parts base at_end,
+  RealMatch.parts_ok islink base parts at_end =
+  forallb (fun ql => negb ((negb at_end || negb (snd ql)) && islink (fst ql))) (RealLemmas.walk base parts).
+Proof. exact RealLemmas.parts_ok_spec. Qed.
+Print Assumptions C06_run_walk_rule.
+
+Theorem C06_accepted_without_follow : forall islink pat rematch g include exclude root,
+  RealLemmas.verdict_on islink pat rematch g include exclude false root = true ->
+  (exists p groups, In p include /\ rematch p g = Some groups /\ forallb (RealMatch.group_ok islink root g) groups = true) /\
+  (forall p, In p exclude -> rematch p g = None).
+Proof. exact RealLemmas.accepted_without_follow. Qed.
+Print Assumptions C06_accepted_without_follow.
+
+Theorem C06_follow_only_adds : forall islink pat rematch g include exclude root,
+  RealLemmas.verdict_on islink pat rematch g include exclude false root = true ->
+  RealLemmas.verdict_on islink pat rematch g include exclude true root = true.
+Proof. exact RealLemmas.follow_monotone. Qed.
+Print Assumptions C06_follow_only_adds.
+
+Theorem C06_exclusions_ignore_links : forall (islink : str -> bool) (pat : Type) (rematch : pat -> str -> RealMatch.mres) (islink2 : str -> bool) g exclude root,
+  existsb (fun p => RealMatch.fs_match islink (rematch p g) g true root) exclude =
+  existsb (fun p => RealMatch.fs_match islink2 (rematch p g) g true root) exclude.
+Proof. exact RealLemmas.exclusions_ignore_links. Qed.
+Print Assumptions C06_exclusions_ignore_links.
